@@ -84,8 +84,7 @@ ParseId(t) ==
         LET n == IF Len(t) > HW /\ t[HW + 1] = SP THEN Name(SubSeq(t, HW + 2, LineEnd(t, HW + 2))) ELSE NoName
         IN  [ok |-> TRUE, id |-> Mk(Num(t, PC, WC), Num(t, PP, WP), Num(t, PD, WD), Num(t, PV, WV), n)]
     ELSE LET e  == LineEnd(t, 1)                                  \* 2nd pattern: name (version dd), greedy name
-             L  == SubSeq(t, 1, e)                                \* '.' does not match a line feed
-             qs == {q \in 0..(e - VS) : IsVerAt(L, q)}
+             qs == {q \in 0..(e - VS) : IsVerAt(t, q)}            \* inside the first line: '.' does not match a line feed
          IN  IF qs = {} THEN [ok |-> FALSE, id |-> NoId]          \* the format error
              ELSE LET q == CHOOSE x \in qs : \A y \in qs : y <= x IN
                   [ok |-> TRUE, id |-> Id(None, None, None, Num(t, q + Len(VerOpen) + 1, WV), Name(SubSeq(t, 1, q)))]
